@@ -4,6 +4,7 @@ import glob
 import json
 import os
 import random
+import re
 import shutil
 import subprocess
 
@@ -110,11 +111,11 @@ def to_pieces(ps):
     return out
 
 
-def judge(chk, label, lines, zones_wanted, impl_pieces, work, start, until, noted=()):
+def judge(chk, label, lines, zones_wanted, impl_pieces, work, start, until, noted=(), variant=''):
     """TLC (TzSem.tla) judges recorded pieces of `zones_wanted` against the input lines; zic validates the spec."""
     rules, zones, _links = tzparse.parse(lines)
     names = [z for z in zones_wanted if z in zones]
-    d = os.path.join(work, 'judge-' + label.replace('/', '_'))
+    d = os.path.join(work, 'judge-' + label.replace('/', '_') + variant.replace(':', '-'))
     os.makedirs(d, exist_ok=True)
     model = os.path.join(d, 'model.json')
     lo, hi = year_day(start), year_day(until)
@@ -178,7 +179,7 @@ def judge(chk, label, lines, zones_wanted, impl_pieces, work, start, until, note
                                   n, label, v['impl']['obs'][:2], v['impl']['obs'][2:], sp[2:] if sp else None),
                               {'zone': n, 'target': label, 'spec': sp, 'impl': v['impl']['obs']})
                 continue
-            chk.violation('%s:%s:semantics' % (label, n), 'emitted zone interpreted by the matching processor differs from the source semantics at piece %d: source says %s, compiled zone says %s' % (
+            chk.violation('%s%s:%s:semantics' % (label, variant, n), 'emitted zone interpreted by the matching processor differs from the source semantics%s at piece %%d: source says %%s, compiled zone says %%s' % (' (source with the documented truncations applied)' if variant else '') % (
                 v['impl']['at'], v['impl']['spec'], v['impl']['obs']), {'zone': n, 'target': label, 'spec': v['impl']['spec'], 'impl': v['impl']['obs']})
     return res, len([n for n in names if n in impl_pieces]), bad
 
@@ -221,6 +222,90 @@ def gen_policy(rnd, name):
             break
         y = int(to) + 1 + rnd.choice([0, 1, 3])
     return lines
+
+
+def decoy_source(lines):
+    """a source with the same zone, link and policy *names* as `lines` but other contents: every policy reduced to one fixed
+    pair of rules, every third zone dropped, one zone added. Compiled first in a process, it must leave no trace in a later
+    compilation of `lines` (anything remembered by name -- cooked policies, string tables, zone lists -- would)."""
+    out = []
+    seen = set()
+    nz = 0
+    keep = True
+    for raw in lines:
+        f = raw.split('#')[0].split()
+        if not f:
+            continue
+        if f[0] == 'Rule':
+            if f[1] not in seen:
+                seen.add(f[1])
+                out.append('Rule\t%s\t1980\tmax\t-\tApr\t1\t0:00\t1:00\tD' % f[1])
+                out.append('Rule\t%s\t1980\tmax\t-\tOct\t1\t0:00\t0\tS' % f[1])
+            continue
+        if f[0] == 'Zone':
+            nz += 1
+            keep = nz % 3 != 0
+        if f[0] == 'Link' or keep:
+            out.append(raw)
+    out.append('Zone\tDecoy/Extra\t3:00\t-\tDEC')
+    return out
+
+
+def _fmt_hms(sec):
+    neg, sec = sec < 0, abs(sec)
+    t = '%d:%02d' % (sec // 3600, sec % 3600 // 60) + (':%02d' % (sec % 60) if sec % 60 else '')
+    return ('-' if neg else '') + t
+
+
+def _trunc0(v, g):
+    return (abs(v) // g) * g * (1 if v >= 0 else -1)
+
+
+def truncate_lines(lines, scope):
+    """the source with the compiler's documented truncations applied (towards zero): STDOFF to the offset granularity of the
+    scope (basic 15 min, extended 1 min), SAVE and fixed RULES offsets to 15 min, AT and UNTIL times to 1 min. A zone that
+    carries a truncation note must behave as zic compiles *this* source -- altered exactly as documented, not more."""
+    off_g = 900 if scope == 'basic' else 60
+    delta_g = max(off_g, 900)
+    ua_g = 60
+    istime = re.compile(r'^-?\d+(:\d+){0,2}$')
+
+    def tsuf(tok, g):
+        suf = ''
+        if tok and tok[-1] in 'wsugz':
+            tok, suf = tok[:-1], tok[-1]
+        if not istime.match(tok):
+            return tok + suf
+        return _fmt_hms(_trunc0(tzparse.hms(tok), g)) + suf
+
+    out = []
+    for raw in lines:
+        body = raw.split('#')[0]
+        f = body.split()
+        if not f or f[0] == 'Link':
+            out.append(raw)
+            continue
+        if f[0] == 'Rule':
+            f[7] = tsuf(f[7], ua_g)
+            sv = f[8]
+            tail = ''
+            if sv and sv[-1] in 'sd' and istime.match(sv[:-1]):
+                sv, tail = sv[:-1], sv[-1]
+            if istime.match(sv):
+                f[8] = _fmt_hms(_trunc0(tzparse.hms(sv), delta_g)) + tail
+            out.append('\t'.join(f))
+            continue
+        k = 2 if f[0] == 'Zone' else 0          # index of STDOFF (a continuation line begins with it)
+        if not istime.match(f[k]):
+            out.append(raw)
+            continue
+        f[k] = _fmt_hms(_trunc0(tzparse.hms(f[k]), off_g))
+        if istime.match(f[k + 1]) and f[k + 1] != '-':
+            f[k + 1] = _fmt_hms(_trunc0(tzparse.hms(f[k + 1]), delta_g))
+        if len(f) > k + 6:
+            f[k + 6] = tsuf(f[k + 6], ua_g)
+        out.append(('' if f[0] == 'Zone' else '\t\t\t') + '\t'.join(f))
+    return out
 
 
 def _zic_accepts(lines):
